@@ -21,8 +21,8 @@ from sketchnu.hyperloglog import HyperLogLog
 
 RULE = (
     "Hypothesis-generated cases per sketch class (5 classes): random configuration (width/depth 1 allowed; log max_count in {300,1000,70000,1e6,"
-    "2^32-1,2^40}, num_reserved in {0,1,3,15,100,1023}; heavy-hitter max_key_len 1..16, phi None/0.01/0.5/1.0; HyperLogLog p 7..16 with seeds from "
-    "{0,1,2^32-1,2^32,2^53+1,2^63,2^63+12345,2^64-1,any}), a random history (adds with multiplicities, list/dict/ngram updates, n_records set to a "
+    "2^32-1,2^40}, num_reserved in {0,1,3,15,100,1023}; heavy-hitter max_key_len 1..16, phi None/0.01/0.5/1.0/one ulp or 2e-6 relative below the default 1/width; HyperLogLog p 7..16 with seeds from "
+    "{0,1,2^32-1,2^32,2^53+1,2^63,2^63+12345,2^64-1,any}), a random history (adds with multiplicities, list/dict/ngram updates, merges of other sketches with their own short histories, n_records set to a "
     "generated value), then chains of up to 3 rounds: save (to a fresh path, over a file holding another sketch of the same shape and totals, or over a file that is not a sketch) -> load (class loader, or countmin.load for count-min; shared_memory False/True) -> "
     "compare -> a fresh second copy merges the original -> common continuation on original and copy (same planted draws for log types) -> "
     "compare -> continue from the copy. Oracle: same class; equal public parameters (width, depth, max_count, num_reserved, base, p, seed, phi, "
@@ -44,11 +44,20 @@ CFGS = {
                       st.sampled_from([300, 1000, 10**6, CEIL, 2**40]), st.sampled_from([0, 1, 3, 15, 100])),
     "log16": st.builds(lambda w, d, mc, nr: {"kind": "log16", "width": w, "depth": d, "max_count": mc, "num_reserved": nr}, W, st.integers(1, 4),
                        st.sampled_from([70000, 10**6, CEIL, 2**40]), st.sampled_from([0, 1, 3, 15, 1023])),
-    "hh": st.builds(lambda w, d, m, phi, at: {"kind": "hh", "width": w, "depth": d, "max_key_len": m, "phi": phi, **({"argtype": at} if at else {})}, st.sampled_from([1, 1, 2, 3, 8, 70]), st.integers(1, 4),
-                    st.integers(1, 16), st.sampled_from([None, None, 0.01, 0.5, 1.0]), st.sampled_from([None, None, None, "u8", "i8", "u32", "i64", "u64", "i32"])),
+    # phi: default (None = 1/width), ordinary values, and values next to the default (one ulp / 2e-6 relative below 1/width)
+    "hh": st.builds(lambda w, d, m, phi, at: {"kind": "hh", "width": w, "depth": d, "max_key_len": m, "phi": _phi(phi, w), **({"argtype": at} if at else {})}, st.sampled_from([1, 1, 2, 3, 8, 70]), st.integers(1, 4),
+                    st.integers(1, 16), st.sampled_from([None, None, 0.01, 0.5, 1.0, "ulp_below_default", "just_below_default"]), st.sampled_from([None, None, None, "u8", "i8", "u32", "i64", "u64", "i32"])),
     "hll": st.builds(lambda p, s, at: {"kind": "hll", "p": p, "seed": s, **({"argtype": at} if at else {})}, st.integers(7, 16), SEEDS, st.sampled_from([None, None, None, "u8", "i8", "u16", "i64", "u64", "i32"])),
 }
 DEFAULTS = {"log8": (CEIL, 15), "log16": (CEIL, 1023)}
+
+
+def _phi(phi, width):
+    if phi == "ulp_below_default":
+        return float(np.nextafter(1.0 / width, 0.0))
+    if phi == "just_below_default":
+        return (1.0 / width) * (1 - 2e-6)
+    return phi
 
 
 @st.composite
@@ -58,11 +67,22 @@ def cases(draw):
     log = kind in ("log8", "log16")
     U = draw(vs.universe(2, 6, 20))
     key = st.sampled_from(U)
+    # linear sketches whose rows end up on different sides of a storage-width boundary (2^8, 2^16): narrow tables, merges,
+    # multiplicities whose pairwise sums cross the boundary while single values stay below it
+    straddle = kind == "linear" and draw(st.sampled_from([False, False, True]))
+    if straddle:
+        cfg = {"kind": "linear", "width": draw(st.sampled_from([2, 3, 5])), "depth": draw(st.integers(2, 4))}
     val = st.one_of(st.sampled_from([0, 1, 1, 2, 3, 17]), st.integers(0, 60)) if log else st.one_of(st.sampled_from([0, 1, 2, 3, 100, 2**31, CEIL]), st.integers(0, 60), st.sampled_from([255, 256, 257, 65535, 65536, 65537, 2**24, 128, 32768]))
 
-    def step():
-        k = draw(st.sampled_from(["add", "add", "update_list", "update_dict", "add_ngram"]))
+    if straddle:
+        val = st.sampled_from([100, 128, 200, 255, 30000, 32768, 40000, 65535])
+
+    def step(nested=False):
+        k = draw(st.sampled_from((["add", "add", "update_dict"] if straddle else ["add", "add", "update_list", "update_dict", "add_ngram"]) + ([] if nested else ["merge"] * (3 if straddle else 1))))
         s = {"op": k}
+        if k == "merge":  # another sketch of the same configuration, filled by its own short history, is merged in
+            s["hist"] = [step(True) for _ in range(draw(st.integers(0, 3)))]
+            return s
         if k == "add":
             s["k"], s["v"] = draw(key), draw(val)
         elif k == "update_list":
@@ -91,10 +111,18 @@ def remap(s, perm):
         s["keys"] = [perm.get(k, k) for k in s["keys"]]
     if "items" in s:
         s["items"] = [[perm.get(k, k), v] for k, v in s["items"]]
+    if "hist" in s:
+        s["hist"] = [remap(t, perm) for t in s["hist"]]
     return s
 
 
-def do(sk, kind, s):
+def do(sk, kind, s, cfg=None):
+    if s["op"] == "merge":
+        other = sut(make_sketch, cfg)
+        for t in s["hist"]:
+            do(other, kind, t, cfg)
+        sut(sk.merge, other)
+        return
     if kind in ("log8", "log16") and "draws" in s:
         plant(sk, s["draws"])
     if s["op"] == "add":
@@ -179,7 +207,7 @@ def run_case(case):
         orig = sut(make_sketch, cfg)
         applied = []
         for s in case["hist"][0]:
-            do(orig, kind, s)
+            do(orig, kind, s, cfg)
             applied.append(s)
         if kind != "hll":
             orig.n_added_records[1] = np.uint64(case["n_records"])
@@ -189,7 +217,7 @@ def run_case(case):
                 twin = sut(make_sketch, cfg)
                 perm = {k: U[-1 - j] for j, k in enumerate(U)}
                 for s in applied:
-                    do(twin, kind, remap(s, perm))
+                    do(twin, kind, remap(s, perm), cfg)
                 if kind != "hll":
                     twin.n_added_records[1] = orig.n_added_records[1]
                 twin.save(path)
@@ -205,8 +233,8 @@ def run_case(case):
             second = load_via(kind, path, "class", False)
             sut(second.merge, orig)  # must not raise: same parameters
             for s in case["hist"][r + 1]:
-                do(orig, kind, s)
-                do(copy, kind, s)
+                do(orig, kind, s, cfg)
+                do(copy, kind, s, cfg)
                 applied.append(s)
             compare(orig, copy, kind, U, f"round {r} after a common continuation")
             del second
